@@ -52,6 +52,30 @@ def _ext(prog: Program, mod: Any, call: ast.AST) -> str:
     return "bisect.bisect_right" if name == "bisect.bisect" else name  # stdlib fact: bisect is bisect_right
 
 
+def _timestamp_key(prog: Program, mod: Any, key: ast.AST | None) -> bool:
+    """`key` maps a sample to its timestamp: a lambda, a module-level function with that single
+    return, or operator.attrgetter("timestamp") (inline or bound to a module-level name)."""
+    def is_getter(e: ast.AST) -> bool:
+        return isinstance(e, ast.Call) and prog.external_name(mod, u(e.func)) in ("operator.attrgetter", "attrgetter") \
+            and len(e.args) == 1 and not e.keywords and isinstance(e.args[0], ast.Constant) and e.args[0].value == "timestamp"
+
+    if isinstance(key, ast.Lambda):
+        return len(key.args.args) == 1 and u(key.body) == f"{key.args.args[0].arg}.timestamp"
+    if key is not None and is_getter(key):
+        return True
+    if isinstance(key, ast.Name):
+        f = mod.functions.get(key.id)
+        if f is not None:
+            body = [s for s in f.node.body if not (isinstance(s, ast.Expr) and isinstance(s.value, ast.Constant))]
+            return len(body) == 1 and isinstance(body[0], ast.Return) and len(f.params) == 1 \
+                and u(body[0].value) == f"{f.params[0]}.timestamp"
+        binds = [s for s in mod.tree.body if isinstance(s, (ast.Assign, ast.AnnAssign)) and s.value is not None and any(
+            isinstance(t, ast.Name) and t.id == key.id for t in (s.targets if isinstance(s, ast.Assign) else [s.target]))]
+        return len(binds) == 1 and (is_getter(binds[0].value) or _timestamp_key(prog, mod, binds[0].value)
+                                    if not isinstance(binds[0].value, ast.Name) else False)
+    return False
+
+
 def _ordered(p: Path, big: str, small: str) -> bool:
     """The path conditions entail big >= small (totally ordered operands)."""
     return (p.outcome(("<", big, small)) is False or p.outcome(("<=", small, big)) is True
@@ -117,8 +141,7 @@ def check_edge(run: Run, prog: Program) -> None:  # noqa: C901
                 assert isinstance(arg, ast.Call)
                 a = positional(arg, ["a", "x", "lo", "hi"])
                 key = a.get("key")
-                key_ok = isinstance(key, ast.Lambda) and len(key.args.args) == 1 \
-                    and u(key.body) == f"{key.args.args[0].arg}.timestamp"
+                key_ok = _timestamp_key(prog, mod, key)
                 ok = key_ok and u(a.get("a")) == BUF and "lo" not in a and "hi" not in a and "x" in a
                 needle = a.get("x")
             what = ("samples stamped exactly T - age would be included" if edge == "lower"
